@@ -545,6 +545,79 @@ async fn reqrep_backpressure(pki: &Pki) -> Outcome {
     Ok(())
 }
 
+
+// ------------------------------------------------------------------------------------------------ C12: a dropped connection, server still there, no back-off delay
+async fn idle_out_zero_step(pki: &Pki) -> Outcome {
+    // the server closes connections that are silent for 3 s; this client pings only every 60 s, so its connection is dropped while
+    // the server stays reachable.  Its back-off is 5 attempts with a step of zero: each attempt starts at once and must be given the
+    // time a handshake and a registration take
+    let (addr, _h) = step!("C12", "server start", start_server(pki, 0));
+    let f = |n: &str| pki.dir.join(n).to_str().unwrap().to_owned();
+    let quiet = step!(
+        "C12",
+        "connect",
+        step!(
+            "C12",
+            "client configuration",
+            step!("C12", "client configuration", step!("C12", "client configuration", selium::custom().keep_alive(60_000)).backoff_strategy(BackoffStrategy::constant().with_step(Duration::ZERO).with_max_attempts(5)).endpoint(&addr.to_string()).with_certificate_authority(&f("ca.der")))
+                .with_cert_and_key(&f("client.der"), &f("client.key.der"))
+        )
+        .connect()
+        .await
+    );
+    let steady = step!("C12", "connect", lib_connect(pki, addr, 20).await);
+    let mut replier = step!(
+        "C12",
+        "open replier",
+        steady.replier("/idle/echo").with_request_decoder(StringCodec).with_reply_encoder(StringCodec).with_handler(|req: String| async move { Ok::<String, anyhow::Error>(format!("re:{req}")) }).open().await
+    );
+    tokio::spawn(async move {
+        let _ = replier.listen().await;
+    });
+    let mut sub = step!("C12", "open subscriber", quiet.subscriber("/idle/news").with_decoder(StringCodec).open().await);
+    let mut publ = step!("C12", "open publisher", quiet.publisher("/idle/news").with_encoder(StringCodec).open().await);
+    let mut q = step!("C12", "open requestor", step!("C12", "timeout", quiet.requestor("/idle/echo").with_request_encoder(StringCodec).with_reply_decoder(StringCodec).with_request_timeout(Duration::from_secs(4))).open().await);
+    tokio::time::sleep(Duration::from_millis(4500)).await;
+    let mut seen = false;
+    for k in 0..40 {
+        match tokio::time::timeout(STEP, publ.send(format!("after-idle-{k}"))).await {
+            Err(_) => return fail("C12", "after its connection idled out the publisher's send never returned".into()),
+            Ok(Err(e)) => return fail("C12", format!("after its connection idled out (server reachable all the time, 5 immediate attempts allowed) the publisher reported {e:?}")),
+            Ok(Ok(())) => {}
+        }
+        match tokio::time::timeout(Duration::from_millis(700), sub.next()).await {
+            Ok(Some(Ok(m))) if m.starts_with("after-idle-") => {
+                seen = true;
+                break;
+            }
+            Ok(Some(Ok(_))) => {}
+            Ok(Some(Err(e))) => return fail("C12", format!("after its connection idled out (server reachable all the time, 5 immediate attempts allowed) the subscriber reported {e:?}")),
+            Ok(None) => return fail("C12", "after its connection idled out the subscriber's stream ended".into()),
+            Err(_) => {}
+        }
+    }
+    if !seen {
+        return fail("C12", "after its connection idled out the subscriber never received another message (28 s of publishing)".into());
+    }
+    let mut ok = false;
+    for k in 0..15 {
+        let body = format!("idle-{k}");
+        match tokio::time::timeout(STEP, q.request(body.clone())).await {
+            Err(_) => return fail("C12", "after its connection idled out a request never returned".into()),
+            Ok(Ok(rep)) if rep == format!("re:{body}") => {
+                ok = true;
+                break;
+            }
+            Ok(Ok(rep)) => return fail("C12 C04", format!("after the idle-out the requestor got Ok({rep:?}) for request {body:?}")),
+            Ok(Err(_)) => tokio::time::sleep(Duration::from_millis(300)).await,
+        }
+    }
+    if !ok {
+        return fail("C12", "after its connection idled out the requestor was never answered again in 15 requests although server and replier are there".into());
+    }
+    Ok(())
+}
+
 // ------------------------------------------------------------------------------------------------ C17: a stalled topic
 async fn stalled_topic(pki: &Pki) -> Outcome {
     let (addr, _h) = step!("C17", "server start", start_server(pki, 0));
@@ -755,10 +828,11 @@ async fn run_case(pki: &Pki, i: usize) -> Outcome {
         12 => survive_outages(pki).await,
         13 => exhausted_budget(pki).await,
         14 => pubsub_duplicate(pki).await,
-        _ => reqrep_backpressure(pki).await,
+        15 => reqrep_backpressure(pki).await,
+        _ => idle_out_zero_step(pki).await,
     }
 }
-const NAMES: [&str; 16] = [
+const NAMES: [&str; 17] = [
     "registration rules on raw streams (invalid names, wrong first frames, role mismatch)",
     "isolation of five similar topic names",
     "pub/sub fidelity: no batching",
@@ -775,8 +849,9 @@ const NAMES: [&str; 16] = [
     "the server never comes back: publisher and subscriber report too-many-retries within their budget",
     "pub/sub fidelity: a batching publisher duplicated with items still queued",
     "request/reply under back-pressure: 40 concurrent 256 KiB echo requests each return a reply or an error in time",
+    "a connection dropped for silence while the server stays up, back-off of 5 attempts with a zero step: publisher, subscriber and requestor work again",
 ];
-const PROPS: [&str; 16] = ["C07 C11", "C07", "C03", "C03", "C03", "C03", "C03", "C03", "C03", "C03", "C04", "C17", "C12 C04", "C12", "C03", "C04"];
+const PROPS: [&str; 17] = ["C07 C11", "C07", "C03", "C03", "C03", "C03", "C03", "C03", "C03", "C03", "C04", "C17", "C12 C04", "C12", "C03", "C04", "C12"];
 
 fn main() {
     let args: Vec<String> = std::env::args().skip(1).collect();
